@@ -84,6 +84,23 @@ class C09(Check):
             fixed.append({"kind": "setup-py-manifest-and-source", "world_spec": {"files": files}, "include": order, "plugins": False,
                           "path_include": None, "extra_findings": {}, "sched": {"seed": 0, "policy": "fifo", "line_p": 0.0}, "workers": None,
                           "enum_seed": None})
+        # two SAST codemods answering the same rule id (objects built from one result file are shared between them)
+        by_rule = {}
+        for c in G.codemods():
+            if c["origin"] != "pixee":
+                for rule in c.get("rules") or []:
+                    by_rule.setdefault((c["origin"], rule), []).append(c["id"])
+        for (_origin, _rule), cids in sorted(by_rule.items()):
+            if len(cids) < 2:
+                continue
+            snips = [next((r["idx"] for r in W.triggering(c) if G.is_plain_snippet(r)), None) for c in cids]
+            if None in snips:
+                continue
+            files = [{"path": f"app/v{j}.py", "snippets": [sn], "layout": {}} for j, sn in enumerate(snips)]
+            for order in (cids, cids[::-1]):
+                fixed.append({"kind": "sast-shared-rule-id", "world_spec": {"files": files}, "include": list(order), "plugins": False,
+                              "path_include": None, "extra_findings": {}, "sched": {"seed": 0, "policy": "fifo", "line_p": 0.0},
+                              "workers": None, "enum_seed": None})
         if tier != "thorough":
             return fixed
         # the whole default set on a world holding one snippet file per codemod
